@@ -59,6 +59,11 @@ func (seq *Sequence) Release() error {
 	seq.Lock()
 	defer seq.Unlock()
 
+	// nothing was leased by this object yet: writing seq.next (0) would rewind the stored sequence.
+	if seq.reserved == 0 {
+		return nil
+	}
+
 	var buf [8]byte
 	binary.BigEndian.PutUint64(buf[:], seq.next)
 	if err := seq.store.Set(seq.key, buf[:]); err != nil {
